@@ -404,6 +404,16 @@ mutual
       exact ⟨l1 s' hst', l2 ss0' hsts'⟩
 end
 
+theorem depthOver_single (c : Spec.SInfo) (x : Nat) : Spec.depthOver [c] x = 1 + c.depthAt x := by
+  show 1 + max 0 (c.depthAt x) = 1 + c.depthAt x
+  omega
+
+/-- a cell of level 0 has the same depth at every level -/
+theorem depth_level0 (H : Bytes → Bytes) (t : Cell) (s : Spec.SInfo) (hs : specInfo H t = some s) (hlev : s.mask = 0) :
+    ∀ l, s.depthAt l = s.depthAt 0 := by
+  intro l
+  exact depth_const s (specInfo_mono H t s hs) 0 l (Nat.zero_le _) (fun x _ _ => by rw [hlev]; simp)
+
 /-- VALIDITY OF THE PRUNED TREE. `t` spec-valid at Merkle depth `d ≥ 1`, of level below its Merkle nesting
 (`mask < 2^(d-1)`: level 0 for `d = 1`), `t'` any pruning of it: `t'` is spec-valid (so it can be constructed,
 `tree_agrees`), and at every level `t'` is at most as deep as `t`. -/
